@@ -61,8 +61,11 @@ def workdir(pid, tier, tag=""):
 def generate(prop, wd, seed, n, tier, only=None, extra_args=()):
     if prop.harness_cmd is None:
         return prop.generate(wd, seed, n, tier, only)
+    # coqc's memory grows with the size of a shard (the thorough tier of C01 needed > 4 GB per 1900-case
+    # shard): keep shards to a few hundred cases; run_shards evaluates 16 of them at a time
+    shards = max(16, (n + 399) // 400)
     cmd = [core.HARNESS_BIN, prop.harness_cmd, "--seed", str(seed), "--n", str(n),
-           "--shards", "16", "--out", wd] + list(extra_args)
+           "--shards", str(shards), "--out", wd] + list(extra_args)
     if tier == "thorough":
         cmd.append("--thorough")
     if only is not None:
@@ -219,7 +222,8 @@ def run(prop, tier, seed, replay=None):
         for k in range(1, prop.search_seeds + 1):
             s2 = seed * 1000003 + k
             wd2 = workdir(pid, tier, "-search%d" % k)
-            gok, _ = generate(prop, wd2, s2, max(n, prop.search_n), tier, extra_args=prop.harness_args(ctx))
+            sn = max(n, prop.search_n) if tier == "quick" else min(n, 4 * prop.search_n)
+            gok, _ = generate(prop, wd2, s2, sn, tier, extra_args=prop.harness_args(ctx))
             if not gok:
                 break
             r2, _ = core.run_shards(wd2)
@@ -229,7 +233,7 @@ def run(prop, tier, seed, replay=None):
             if hit:
                 i, c = hit[0]
                 rp = replay_path(pid, "case%d-seed%d" % (i, s2))
-                core.write_json(rp, {"property": pid, "seed": s2, "tier": tier, "n": max(n, prop.search_n),
+                core.write_json(rp, {"property": pid, "seed": s2, "tier": tier, "n": sn,
                                      "case": i, "code": c, "what": names_of(prop, c), "input": d2.get(i)})
                 violations.append({"kind": "spec", "replay": rp, "found_input": True,
                                    "text": "search found %s on case %d: %s" % (names_of(prop, c), i, core.short(d2.get(i)))})
